@@ -46,7 +46,7 @@ func TestC04(t *testing.T) {
 // ---- C05 -------------------------------------------------------------------
 
 var c05Cfg = SGenCfg{PingsPct: 60, RFs: []int{3, 3, 5, 5, 4}, MinOps: 5, MaxOps: 22, FaultPct: 40, SlowFaults: true, MaxSlow: 2,
-	W: map[string]int{"write": 34, "sync": 6, "read": 18, "readd": 10, "promote": 3, "remove": 4, "pingfail": 8, "nodedrop": 8}}
+	W: map[string]int{"write": 34, "sync": 6, "read": 18, "readd": 10, "promote": 3, "remove": 4, "pingfail": 8, "nodedrop": 8, "errio": 6}}
 
 func TestC05(t *testing.T) {
 	runStackProperty(t, "C05", "TestC05", func(rt *rapid.T) SProgram { return GenSProgram(rt, c05Cfg) },
@@ -59,7 +59,7 @@ func TestC05(t *testing.T) {
 
 var c18Cfg = SGenCfg{PingsPct: 25, RFs: allRF, MinOps: 5, MaxOps: 30, FaultPct: 35, SlowFaults: false, AllowDup: true, RestFail: true,
 	W: map[string]int{"write": 18, "sync": 3, "read": 10, "readd": 10, "add": 14, "promote": 8, "remove": 10,
-		"pingfail": 3, "nodedrop": 3, "snapshot": 6, "setmode": 6, "setmodeseq": 5, "boot": 4, "reconnect": 6}}
+		"pingfail": 3, "nodedrop": 3, "snapshot": 6, "setmode": 6, "setmodeseq": 5, "boot": 4, "reconnect": 6, "errio": 3}}
 
 func TestC18(t *testing.T) {
 	runStackProperty(t, "C18", "TestC18", func(rt *rapid.T) SProgram { return GenSProgram(rt, c18Cfg) },
